@@ -41,12 +41,12 @@ func init() {
 	dir, err := os.MkdirTemp("", "verif-hosts-")
 	if err == nil {
 		p := filepath.Join(dir, "hosts")
-		os.WriteFile(p, []byte("127.0.0.1 localhost myalias.local\n::1 ip6-localhost alias6.local\n10.0.1.1 notlocal.local\n"), 0o644)
+		os.WriteFile(p, []byte("127.0.0.1 localhost myalias.local\n::1 ip6-localhost alias6.local\n10.0.1.1 notlocal.local\n127.0.1.1 Build-Agent-07 # an alias written with capitals\n"), 0o644)
 		hostsfilelib.Location = p
 	}
 }
 
-var hostsAliases = []string{"localhost", "myalias.local", "ip6-localhost", "alias6.local"}
+var hostsAliases = []string{"localhost", "myalias.local", "ip6-localhost", "alias6.local", "build-agent-07"}
 
 type polReq struct {
 	Token     string        `json:"token"`
@@ -466,6 +466,7 @@ func (w *polWorld) setup() {
 	n.AddHost("localhost", "127.0.0.1")
 	n.AddHost("notlocal.local", ipTarget)
 	n.AddHost("myalias.local", "127.0.0.1")
+	n.AddHost("build-agent-07", "127.0.1.1")
 	n.AddHost("alias6.local", "::1")
 	n.AddHost("ip6-localhost", "::1")
 	for i := range w.c.Conns {
@@ -477,7 +478,7 @@ func (w *polWorld) setup() {
 		w.listenRecorder(x.node, x.ip+":443", x.node+".example")
 		w.listenRecorder(x.node, x.ip+":8443", x.node+".example")
 	}
-	for _, ip := range []string{"127.0.0.1", "127.8.9.10", "::1", ipSUT} {
+	for _, ip := range []string{"127.0.0.1", "127.8.9.10", "127.0.1.1", "::1", ipSUT} {
 		w.listenRecorder("sut-loopback", net.JoinHostPort(ip, "*"), "")
 		w.listenRecorder("sut-loopback", net.JoinHostPort(ip, "443"), "localhost")
 	}
